@@ -14,8 +14,10 @@ interpolated table sample `S` at the phase position (`C01.tick_value`).
   `slope · inc/2^24 + 5·2^-24 + 2^-28`, for every start level, sustain level, position and increment.
 * `gate_on_step`, `gate_off_step`: the first tick after a gate event arriving at any moment starts from the level being
   output: same bound.
-Phase boundaries (roll-over into the next phase) and sustain-level changes between ticks are covered by the oracle
-on the implementation; their proofs follow the same pattern and are not included (`partial`, see DESIGN.md).
+* Part 2, `C03Boundary.lean`: `boundary_step` — the tick that rolls over into the next phase (attack → decay,
+  decay → sustain, release → rest): same bound.
+Sustain-level changes between two ticks are covered by the oracle on the implementation only (the bound then has the
+extra term "the change the caller made", which follows from `blend_lipschitz` in the level argument; not included).
 -/
 namespace C03
 open F32 AdsrTab C01
